@@ -911,6 +911,7 @@ pub fn worker(seed: u64, start: u64, end: u64, progress: &mut dyn FnMut(u64), ke
                 }
                 if let Some(v) = v {
                     if sum.violations.len() < 2 {
+                        progress(run | MINIMISING);
                         let (min, execs) = minimise(&env, &plan, &v.class);
                         let v2 = match execute(&env, &min) {
                             Ok((Some(v2), _)) => v2,
